@@ -32,9 +32,11 @@ func (r *verifRegistry) ContainsName(name string) bool {
 	return name != "" && verifKnownFmt(name) // contract: no registry knows the empty format name
 }
 func (r *verifRegistry) Validates(name, data string) bool {
-	r.calls++
-	if r.calls == r.panicAt {
-		panic("format checker failure (injected)")
+	if r.panicAt > 0 { // the fault-injecting registry counts its calls; the plain one is stateless
+		r.calls++
+		if r.calls == r.panicAt {
+			panic("format checker failure (injected)")
+		}
 	}
 	return verifFmtOK(name, data)
 }
